@@ -25,6 +25,7 @@ type coreMon struct {
 	removed   map[int]bool // actor was removed as proposer (kick / fork)
 	reset     map[int]int64
 	outcomes  []string
+	spChanged bool // w-corem: an x/sequencer MsgUpdateParams was accepted earlier in this trace
 }
 
 func (m *coreMon) violate(sig, detail string) {
@@ -153,9 +154,26 @@ func (m *coreMon) check(op string, res string, cur *coreSnap) {
 				m.r.Hit("C07/roles/proposer-with-zero-bond")
 				if prev != nil && ri < len(prev.Ras) && prev.Ras[ri].Prop != r.Prop {
 					m.r.Hit("C07/roles/proposer-with-zero-bond/chosen-with-zero-bond-by-" + f[0])
+					if f[0] == "punish" || f[0] == "xferowner" || f[0] == "set_seq_params" { // w-corem: these never fill a proposer slot
+						m.violate("C07/roles/proposer-chosen-by-op-that-changes-no-role", fmt.Sprintf("r%d a%d -> a%d by %s", ri, prev.Ras[ri].Prop, r.Prop, op))
+					}
 				} else if prev != nil {
 					if pq, ok := prev.Seqs[r.Prop]; ok && !pq.Tokens.IsZero() {
 						m.r.Hit("C07/roles/proposer-with-zero-bond/sitting-proposer-emptied-by-" + f[0])
+						// --- w-corem: the op kinds of agent-corea.  `punish` (the standalone proposal) is a
+						// fourth legitimate route (Props/C07X zero_bond_proposer_by_punish_proposal); a liveness
+						// slash under x/sequencer parameters changed in mid-history is recorded separately
+						// (multiplier raised to 1 / minimum raised above the bond: the parameters IN FORCE
+						// count); an ownership transfer or a parameter update itself moves no bond at all
+						switch f[0] {
+						case "end":
+							if m.spChanged {
+								m.r.Hit("C07/roles/proposer-with-zero-bond/sitting-proposer-emptied-by-end/after-seq-params-update")
+							}
+						case "xferowner", "set_seq_params":
+							m.violate("C07/roles/sitting-proposer-bond-emptied-by-op-that-moves-no-bond", fmt.Sprintf("r%d a%d %s -> 0 by %s", ri, r.Prop, pq.Tokens, op))
+						}
+						// --- w-corem: end
 					}
 				}
 			}
@@ -487,6 +505,7 @@ func (m *coreMon) check(op string, res string, cur *coreSnap) {
 			m.violate("C07/params/update-params-changed-more-than-the-params", diffFields(a.renderFull("x"), b.renderFull("x")))
 		}
 		m.r.Hit("set_seq_params/accepted")
+		m.spChanged = true // w-corem
 	}
 	// ---- C11 / C20: rollapp owners (recipients of the rollapp gauges' payouts at epoch end): changed only
 	// by a MsgTransferOwnership signed by the current owner, never to an address the bank refuses
